@@ -251,6 +251,7 @@ func Main(m *testing.M) {
 				if !ok {
 					continue
 				}
+				journal(e.Check, e.Witness)
 				out, err := r.runRaw(e.Witness)
 				if err != nil {
 					fmt.Printf("INCONCLUSIVE witness %s undecodable: %v\n", e.ID, err)
@@ -320,6 +321,7 @@ func runReplayFile(path string, verbose bool) int {
 		}
 		return 0
 	}
+	journal(d.Check, d.Case) // a case that kills the process is reported from the journal
 	out, err := r.runRaw(d.Case)
 	if err != nil {
 		fmt.Printf("INCONCLUSIVE replay %s: %v\n", path, err)
